@@ -142,6 +142,38 @@ pub fn connect(addr: &SocketAddr) -> std::io::Result<Box<dyn Connection>> {
     }
 }
 
+/// Take the exclusive advisory lock (`<path>.lock`) that guards the Unix socket at `path`.
+///
+/// The returned file holds the lock until it is dropped or the process exits. If another
+/// process holds the lock, an `AddrInUse` error is returned.
+#[cfg(unix)]
+pub fn lock_unix_socket_path(path: &std::path::Path) -> std::io::Result<std::fs::File> {
+    use std::os::unix::io::AsRawFd;
+
+    let mut lock_path = path.as_os_str().to_owned();
+    lock_path.push(".lock");
+    let file = std::fs::OpenOptions::new()
+        .create(true)
+        .truncate(false)
+        .write(true)
+        .open(&lock_path)?;
+    // SAFETY: `file` is an open file descriptor for the duration of the call.
+    if unsafe { libc::flock(file.as_raw_fd(), libc::LOCK_EX | libc::LOCK_NB) } != 0 {
+        let err = std::io::Error::last_os_error();
+        if err.kind() == std::io::ErrorKind::WouldBlock {
+            return Err(std::io::Error::new(
+                std::io::ErrorKind::AddrInUse,
+                format!(
+                    "{} is locked by another server",
+                    std::path::Path::new(&lock_path).display()
+                ),
+            ));
+        }
+        return Err(err);
+    }
+    Ok(file)
+}
+
 #[cfg(unix)]
 mod unix_imp {
     use futures::TryFutureExt;
